@@ -6,7 +6,7 @@
    This file contains only statements closed by `exact`, their assumptions and non-vacuity examples.
    Generated once by tools/genprops.py from the proved lemmas (statements restated verbatim). *)
 From Coq Require Import List NArith ZArith Bool Lia Sorting.Permutation.
-From Viv Require Import Base.Assoc Base.Tree Model.Paths Model.Steps Model.Struct Model.StructC Proofs.Struct_proofs Proofs.Consistent_proofs Proofs.MoveP_proofs.
+From Viv Require Import Base.Assoc Base.Tree Model.Paths Model.Steps Model.Struct Model.StructC Proofs.Struct_proofs Proofs.Consistent_proofs Proofs.MoveP_proofs Proofs.Consistent2_proofs Proofs.Upd_proofs.
 Import ListNotations.
 
 (* every node outside the subtrees an operation names keeps its identity (uid) and its value *)
@@ -235,6 +235,91 @@ Theorem C09_movep_wf :
 Proof. exact @movep_wf. Qed.
 Print Assumptions C09_movep_wf.
 
+(* ORDER OF ONE UPDATE: a plain value update of a child listed next to the _add that creates it (in either listing order) is carried out after the _add *)
+Theorem C09_upd_after_add :
+  forall (mk_child : N -> cnode * N) (D : Type) (build : D -> N -> cnode * N)
+           (copy_procs : cnode -> N -> cnode * N) (vr : variant) (t : cnode) 
+           (here : list key) (k : key) (v st : tree Z) (uid : N),
+         apply_ops mk_child D build copy_procs vr t here [OpUpd D k v; OpAdd D k st] uid =
+         then_op mk_child D build copy_procs vr t here (OpAdd D k st) (OpUpd D k v) uid /\
+         apply_ops mk_child D build copy_procs vr t here [OpAdd D k st; OpUpd D k v] uid =
+         then_op mk_child D build copy_procs vr t here (OpAdd D k st) (OpUpd D k v) uid.
+Proof. exact @upd_after_add. Qed.
+Print Assumptions C09_upd_after_add.
+
+(* ... and lands on the freshly added child: nothing of it is lost *)
+Theorem C09_upd_after_add_lands :
+  forall (mk_child : N -> cnode * N) (D : Type) (build : D -> N -> cnode * N)
+           (copy_procs : cnode -> N -> cnode * N) (vr : variant) (t : cnode) 
+           (here : list key) (k : key) (v st : tree Z) (uid : N) (ops : list (sop D)) 
+           (t' : cnode) (rp : reports) (uid' : N),
+         ops = [OpUpd D k v; OpAdd D k st] \/ ops = [OpAdd D k st; OpUpd D k v] ->
+         apply_ops mk_child D build copy_procs vr t here ops uid = Ok (t', rp, uid') ->
+         cget t (here ++ [k]) = None /\
+         (exists (t1 : cnode) (rp1 : reports) (ch ch' : cnode),
+            apply_op mk_child D build copy_procs vr t here (OpAdd D k st) uid = Ok (t1, rp1, uid') /\
+            cget t1 (here ++ [k]) = Some ch /\
+            cadd (S (tdepth v)) ch v = Ok ch' /\
+            cget t' (here ++ [k]) = Some ch' /\
+            cuid ch' = cuid ch /\ r_deletions rp = [] /\ r_process rp = [] /\ r_step rp = []).
+Proof. exact @upd_after_add_lands. Qed.
+Print Assumptions C09_upd_after_add_lands.
+
+(* ... listed next to the _delete of the same child it is applied first; afterwards the child is gone and the deletion reported *)
+Theorem C09_upd_before_delete :
+  forall (mk_child : N -> cnode * N) (D : Type) (build : D -> N -> cnode * N)
+           (copy_procs : cnode -> N -> cnode * N) (vr : variant) (t : cnode) 
+           (here : list key) (k : key) (v : tree Z) (uid : N) (ops : list (sop D)) 
+           (t' : cnode) (rp : reports) (uid' : N),
+         cwf t ->
+         ops = [OpDelete D k; OpUpd D k v] \/ ops = [OpUpd D k v; OpDelete D k] ->
+         apply_ops mk_child D build copy_procs vr t here ops uid = Ok (t', rp, uid') ->
+         cget t' (here ++ [k]) = None /\
+         r_deletions rp = [here ++ [k]] /\ r_process rp = [] /\ r_step rp = [] /\ uid' = uid.
+Proof. exact @upd_before_delete. Qed.
+Print Assumptions C09_upd_before_delete.
+
+(* ... in any update, plain value updates come after every _add/_move/_generate/_divide and before every _delete *)
+Theorem C09_order_ops_upd_position :
+  forall (D : Type) (ops : list (sop D)) (i j : nat),
+         i < j < length (order_ops D ops) ->
+         (forall (k : key) (v : tree Z),
+          nth i (order_ops D ops) (OpDelete D 0%N) = OpUpd D k v ->
+          match nth j (order_ops D ops) (OpDelete D 0%N) with
+          | OpDelete _ _ | OpDeletePath _ _ | OpUpd _ _ _ => True
+          | _ => False
+          end) /\
+         (forall (k : key) (v : tree Z),
+          nth j (order_ops D ops) (OpDelete D 0%N) = OpUpd D k v ->
+          match nth i (order_ops D ops) (OpDelete D 0%N) with
+          | OpDelete _ _ | OpDeletePath _ _ => False
+          | _ => True
+          end).
+Proof. exact @order_ops_upd_position. Qed.
+Print Assumptions C09_order_ops_upd_position.
+
+(* a plain value update changes exactly the variables it lists (old + leaf), keeps every node, identity and kind, creates and removes nothing *)
+Theorem C09_cadd_spec :
+  forall (fuel : nat) (n : cnode) (v : tree Z) (n' : cnode),
+         wf v ->
+         cadd fuel n v = Ok n' ->
+         forall q : list key,
+         option_map chead (cget n' q) =
+         option_map (fun x : cnode => chead (vbump x (tdelta v q))) (cget n q).
+Proof. exact @cadd_spec. Qed.
+Print Assumptions C09_cadd_spec.
+
+(* a value update for a key that is no child at that point is skipped *)
+Theorem C09_upd_missing_skipped :
+  forall (mk_child : N -> cnode * N) (D : Type) (build : D -> N -> cnode * N)
+           (copy_procs : cnode -> N -> cnode * N) (vr : variant) (t : cnode) 
+           (here : list key) (k : key) (v : tree Z) (uid : N) (t' : cnode) 
+           (rp : reports) (uid' : N),
+         apply_op mk_child D build copy_procs vr t here (OpUpd D k v) uid = Ok (t', rp, uid') ->
+         cget t (here ++ [k]) = None -> t' = t /\ uid' = uid /\ rp = upd_report.
+Proof. exact @upd_missing_skipped. Qed.
+Print Assumptions C09_upd_missing_skipped.
+
 
 (* ---- non-vacuity on the concrete kit (Model/StructC.v) ---- *)
 Definition ex_root : cnode :=
@@ -251,4 +336,7 @@ Proof. intros nm [<-|[]]. reflexivity. Qed.
 
 (* a nested move that fires (Proofs/MoveP_proofs.v) *)
 Check movep_example.
+
+(* _add {s:{n:7}} and a value update {s:{n:5}} of the same key in one update: 12 *)
+Check ex_add_upd.
 
